@@ -3,6 +3,8 @@
 package m3
 
 import (
+	"reflect"
+
 	tally "github.com/uber-go/tally/v4"
 	"github.com/uber-go/tally/v4/thirdparty/github.com/apache/thrift/lib/go/thrift"
 )
@@ -22,19 +24,54 @@ func VerifBudget(r Reporter) (freeBytes, overheadBytes int32) {
 // VerifSetSeqID sets the thrift client's sequence id.
 func VerifSetSeqID(r Reporter, id int32) { r.(*reporter).client.SeqId = id }
 
+// The handle and histogram types are looked at through reflection, so that the accessors keep compiling when a
+// change turns a value type into a pointer type or wraps it; a size that cannot be found is reported as -1 and the
+// harness then skips the clauses that need it.
+
+func verifFindSize(v reflect.Value) int32 {
+	for v.IsValid() && (v.Kind() == reflect.Ptr || v.Kind() == reflect.Interface) {
+		if v.IsNil() {
+			return -1
+		}
+		v = v.Elem()
+	}
+	if !v.IsValid() || v.Kind() != reflect.Struct {
+		return -1
+	}
+	if f := v.FieldByName("size"); f.IsValid() && f.CanInt() {
+		return int32(f.Int())
+	}
+	if f := v.FieldByName("metric"); f.IsValid() {
+		return verifFindSize(f)
+	}
+	return -1
+}
+
 // VerifChargedSize returns the size the reporter charges for a cached counter/gauge/timer.
-func VerifChargedSize(h interface{}) int32 { return h.(cachedMetric).size }
+func VerifChargedSize(h interface{}) int32 { return verifFindSize(reflect.ValueOf(h)) }
 
 // VerifBucketChargedSizes returns the sizes charged for the buckets of a cached histogram.
 func VerifBucketChargedSizes(h tally.CachedHistogram) []int32 {
-	ch := h.(cachedHistogram)
-	bs := ch.cachedValueBuckets
-	if len(bs) == 0 {
-		bs = ch.cachedDurationBuckets
+	v := reflect.ValueOf(h)
+	for v.IsValid() && (v.Kind() == reflect.Ptr || v.Kind() == reflect.Interface) {
+		if v.IsNil() {
+			return nil
+		}
+		v = v.Elem()
 	}
-	out := make([]int32, len(bs))
-	for i := range bs {
-		out[i] = bs[i].metric.size
+	if !v.IsValid() || v.Kind() != reflect.Struct {
+		return nil
+	}
+	bs := v.FieldByName("cachedValueBuckets")
+	if !bs.IsValid() || bs.Kind() != reflect.Slice || bs.Len() == 0 {
+		bs = v.FieldByName("cachedDurationBuckets")
+	}
+	if !bs.IsValid() || bs.Kind() != reflect.Slice {
+		return nil
+	}
+	out := make([]int32, bs.Len())
+	for i := range out {
+		out[i] = verifFindSize(bs.Index(i))
 	}
 	return out
 }
@@ -43,10 +80,10 @@ func VerifBucketChargedSizes(h tally.CachedHistogram) []int32 {
 func VerifInternalChargedSizes(r Reporter) []int32 {
 	rr := r.(*reporter)
 	out := []int32{
-		rr.numBatchesCounter.(cachedMetric).size,
-		rr.numMetricsCounter.(cachedMetric).size,
-		rr.numWriteErrorsCounter.(cachedMetric).size,
-		rr.numTagCacheCounter.(cachedMetric).size,
+		VerifChargedSize(rr.numBatchesCounter),
+		VerifChargedSize(rr.numMetricsCounter),
+		VerifChargedSize(rr.numWriteErrorsCounter),
+		VerifChargedSize(rr.numTagCacheCounter),
 	}
 	return append(out, VerifBucketChargedSizes(rr.batchSizeHistogram)...)
 }
